@@ -85,7 +85,14 @@ func (c *C20FMA) Run() string {
 	if rd, ok := res.(*tensor.Dense); !ok || rd != Y.b.T {
 		return desc + ": the returned tensor is not y"
 	}
-	if m := compareAt(res, want, eqVal); m != "" {
+	if c.Y.Mask != nil {
+		for k, mk := range c.Y.Mask {
+			if mk {
+				want.E[k] = maskedOut // nothing is stated about positions masked in the destination
+			}
+		}
+	}
+	if m := compareAt(res, want, func(a, b interface{}) bool { return isUndef(b) || eqVal(a, b) }); m != "" {
 		return desc + ": y = a*x + y: " + m
 	}
 	if m := A.unchanged("operand a"); m != "" {
@@ -97,6 +104,37 @@ func (c *C20FMA) Run() string {
 		}
 	}
 	c20Last = fmtVals(readAll(res))
+	// a masked destination: the model says nothing about the positions masked in y, but whatever the
+	// default engine does with them, the specialised engine does too
+	if c.Y.Mask != nil && c.Eng != "" {
+		ref := *c
+		ref.Eng = ""
+		ref.Y.Mask = nil
+		ref.Y.Mask = c.Y.Mask
+		A2, m1 := buildOpnd(&ref.A, d)
+		Y2, m2 := buildOpnd(&ref.Y, d)
+		if m1 == "" && m2 == "" {
+			var x2 interface{} = x
+			if c.X != nil {
+				X2, m3 := buildOpnd(ref.X, d)
+				if m3 != "" {
+					return ""
+				}
+				x2 = X2.b.T
+			}
+			var r2 tensor.Tensor
+			var e2 error
+			if p := try(func() { r2, e2 = tensor.FMA(A2.b.T, x2, Y2.b.T) }); p == "" && e2 == nil {
+				g, w := backingVals(res.Data()), backingVals(r2.Data())
+				for k := range g {
+					if k < len(w) && !eqVal(g[k], w[k]) {
+						return desc + fmt.Sprintf(": masked y: storage element %d is %s with engine %q but %s with the default engine", k, fmtVal(g[k]), c.Eng, fmtVal(w[k]))
+					}
+				}
+				rec.Class("masked-y:compared-with-default-engine")
+			}
+		}
+	}
 	return ""
 }
 
@@ -258,6 +296,14 @@ func TestC20(t *testing.T) {
 				c.X = &x
 			} else {
 				c.Scalar = rapid.Int64Range(-3, 4).Draw(rt, "s")
+			}
+			if rapid.IntRange(0, 4).Draw(rt, "ymask") == 0 {
+				// a masked destination that is otherwise flat
+				c.Y.L = Layout{Root: "rm"}
+				c.Y.Mask = make([]bool, prod(shape))
+				for i := range c.Y.Mask {
+					c.Y.Mask[i] = rapid.Bool().Draw(rt, "ym")
+				}
 			}
 			return c
 		})
